@@ -14,7 +14,7 @@ PROPERTY = {
         'leaf values are distinct concrete markers',
         'the oracle (engine/refmodel.py) is validated against the maintainers\' dict/ and list/ fixtures (###EXPECTED) on every run',
     ],
-    'bounds': {'stages': '2 (quick) / 2..3 (thorough)', 'focus depth': '0..2 below the root, prefix keys from {w, x} so that keys below the deleting node coincide with ancestor keys',
+    'bounds': {'stages': '2 (quick) / 2..3 (thorough)', 'focus depth': '0..2 below the root, prefix keys from {w, x} so that keys below the deleting node coincide with ancestor keys; plus the focus being the document root itself (the deleting node is the root of the second document)',
                'older content': '5 variants (incl. falsy leaves with an inherited-mode list, protected empty containers) - originally 3 variants (mapping with nested mapping, list, mapping with ancestor-named key), priority sites on 2 entries + literal !force on a third',
                'newer node': '6 variants (mapping, nested mapping, list, mapping with ancestor-named weak key, empty mapping, value-less !del), delete in {absent,T,F}, priority in {absent,-1,0,1}'},
     'outside': ['deleting list over a list whose elements have different priorities', 'type change at the focus while older entries are protected',
@@ -84,13 +84,21 @@ def c04_delete(split, ppn, pn, dpn, dn, ppa, pa, ppb, pb, ppt, pt):
     sn = ('sn', _flags(ppn, pn, dpn, dn))
     sa = ('sa', _flags(ppa, pa))
     sb = ('sb', _flags(ppb, pb))
-    ospec = rm.wrap_spec(('m', [('p', older_spec(split['older'], sa, sb)), ('q', ('s', 99))], None), prefix)
-    nspec = rm.wrap_spec(('m', [('p', newer_spec(split['newer'], sn))], None), prefix)
+    if split.get('root'):
+        # the focus IS the document: the (possibly deleting) newer node is the root of the second document
+        ospec = older_spec(split['older'], sa, sb)
+        nspec = newer_spec(split['newer'], sn)
+    else:
+        ospec = rm.wrap_spec(('m', [('p', older_spec(split['older'], sa, sb)), ('q', ('s', 99))], None), prefix)
+        nspec = rm.wrap_spec(('m', [('p', newer_spec(split['newer'], sn))], None), prefix)
     specs = [ospec, nspec]
     if split.get('third'):
         # a later stage writes into the focus again (history of length 3)
         st = ('st', _flags(ppt, pt))
-        tspec = rm.wrap_spec(('m', [('p', ('m', [('x', ('s', 20, st)), ('t', ('s', 21))], None))], None), prefix)
+        if split.get('root'):
+            tspec = ('m', [('x', ('s', 20, st)), ('t', ('s', 21))], None)
+        else:
+            tspec = rm.wrap_spec(('m', [('p', ('m', [('x', ('s', 20, st)), ('t', ('s', 21))], None))], None), prefix)
         specs.append(tspec)
     docs = [rm.spec_text(s, site) for s in specs]
     note(docs=docs)
@@ -122,7 +130,7 @@ def c04_delete(split, ppn, pn, dpn, dn, ppa, pa, ppb, pb, ppt, pt):
         return False
     wit('built')
     ok = (got == expected)
-    if ok and expected is not None:
+    if ok and expected is not None and not split.get('root'):
         cur = expected
         for k in prefix:
             cur = cur[k]
@@ -188,6 +196,13 @@ def _splits_delete(tier):
                     out.append({'prefix': prefix, 'older': older, 'newer': newer, 'third': False, '_pre': pre})
                     if tier != 'quick' and newer in (0, 4, 5):
                         out.append({'prefix': prefix, 'older': older, 'newer': newer, 'third': True, '_pre': pre})
+    # the deleting node is the ROOT of the second document (only the builder can adopt the node a replacing merge returns)
+    for older, newer in ((0, 0), (0, 1), (2, 3), (3, 6), (0, 4), (4, 0), (4, 4)):
+        for third in (False, True):
+            if tier == 'quick' and third and (older, newer) not in ((0, 0), (0, 4)):
+                continue
+            for pre in ('ppn', 'not ppn'):
+                out.append({'prefix': 0, 'root': True, 'older': older, 'newer': newer, 'third': third, '_pre': pre})
     return out
 
 
